@@ -14,7 +14,7 @@
    `res` = the handle the call returned (ignored by routes returning nothing) — and `route_fun r a`,
    the value the returned handle must have (None: the call has no solution at a, e.g. x mod 0). *)
 Require Import Selen.Model.Prelude Selen.Model.Dom Selen.Model.Views Selen.Model.PropDefs.
-Require Import Selen.Model.Props.Basic Selen.Model.Props.LinInt Selen.Model.Props.Arith.
+Require Import Selen.Model.Props.Basic Selen.Model.Props.Neq Selen.Model.Props.LinInt Selen.Model.Props.Arith.
 Require Import Selen.Model.Props.Logic Selen.Model.Props.Global Selen.Model.Gac Selen.Model.Props.AllDiff.
 Require Import Selen.Model.Api Selen.Model.Lower.
 Require Selen.Generated.Consts.
@@ -96,7 +96,7 @@ Definition denote_base (p : pdesc) : prop :=
   | PMod x y s => mk_mod x y s
   | PLeq x y => mk_leq x y
   | PEq x y => mk_eq x y
-  | PNeq x y => mk_neq_noop x y
+  | PNeq x y => mk_neq x y                              (* NotEquals after fix 106df3d (Props/Neq.v) *)
   | PLinEq cs xs k => mk_lin_eq cs xs k
   | PLinLe cs xs k => mk_lin_le cs xs k
   | PLinNe cs xs k => mk_lin_ne cs xs k
@@ -548,7 +548,11 @@ Definition route_sem (r : route) (res : nat) (a : asg) : bool :=
   | RClause pos neg => existsb (fun x => tr (a x)) pos || existsb (fun x => negb (tr (a x))) neg
   | RReif op x y b => Bool.eqb (tr (a b)) (cmp_sem op (a x) (a y))
   | RLinReif op cs xs k b =>
-    Nat.eqb (length cs) (length xs) && is01 (a b) && Bool.eqb (a b =? 1) (cmp_sem op (lin_val cs xs a) k)
+    (* a relation whose coefficient and variable vectors differ in length is malformed and never
+       holds: its reification is false (documented by fix e45322d; before it: class kf_linreif_len) *)
+    if Nat.eqb (length cs) (length xs)
+    then is01 (a b) && Bool.eqb (a b =? 1) (cmp_sem op (lin_val cs xs a) k)
+    else a b =? 0
   | RCumulative st du de cap =>
     Nat.eqb (length st) (length du) && Nat.eqb (length st) (length de) && cum_sem st du de cap a
   | _ => false
@@ -604,11 +608,13 @@ Definition kf_nonbool_arg (r : route) (s : store) : bool :=
   negb (forallb (fun x => is_bool_dom (sget s x)) (bool_args r)).
 
 (* ------------------------------------------------------------------------------------------ *)
-(* Behaviour AFTER the proposed repairs fixes/routes_implies_cumulative.patch and
-   fixes/routes_felement_bounds.patch — NOT the behaviour of the current tree.  Kept next to the faithful
-   model so that the tie can be run against a patched tree (driver switch SELEN_ROUTES_FIXED=1; the third
-   patch, routes_prepare_validation_errors, only changes which entry points report a recorded
-   posting-time error and is handled in the driver). *)
+(* Behaviour of the CURRENT tree, i.e. after the repairs a88ba19 (implies / cumulative), b9ad7d3
+   (functions::element bounds), e45322d (length-mismatched reified linear postings force b = 0) and e2596cd
+   (Model::table drops malformed tuples and records a validation error); 596c327 (prepare_for_search returns a
+   recorded posting-time error) only changes which entry points report `rverr` and is handled in the driver.
+   `call` / `rbuild` above describe the tree BEFORE these repairs and are kept for the refutation lemmas
+   (driver switch SELEN_ROUTES_PREFIX=1). *)
+Definition verr (m : rstate) : rstate := mkrs (rst m) (rpend m) (ruser m) (rpanic m) true (rcallerr m).
 Definition cum_pair_fixed (si sj : nat) (di dj : Z) (st : rlst) : option rlst :=
   do bi <- obounds (fst st) (OV si);
   let (ei, st) := result_var (add_bounds bi (di, di)) (fun r => PB (PAdd (VVar si) (VConst di) r)) st in
@@ -652,6 +658,15 @@ Definition call_fixed (r : route) (m : rstate) : rstate :=
       | None => panic m
       end
     else m
+  | RLinReif op cs xs k b =>
+    (* fix e45322d: a length mismatch posts equals(b, 0) at once and stores no AST *)
+    if Nat.eqb (length cs) (length xs) then call r m
+    else with_st m (rpush (PB (PEq (VVar b) (VConst 0))) (rst m))
+  | RTable xs ts =>
+    (* fix e2596cd: Table::new keeps the tuples of the right arity, Model::table records an
+       InvalidConstraint validation error (returned by every solving call since 596c327) *)
+    if table_okb xs ts then call r m
+    else verr (with_st m (rpush (PTable xs (filter (fun tp => Nat.eqb (length tp) (length xs)) ts)) (rst m)))
   | _ => call r m
   end.
 Definition rexec_fixed (s : rstmt) (m : rstate) : rstate :=
